@@ -727,6 +727,26 @@ func (c *Ctx) CellFields(x *X) map[string]*X {
 	}
 	out := map[string]*X{}
 	if al == nil {
+		// a pointer produced by a call (constructor) whose fields are then assigned
+		if v, ok := x.V.(ssa.Value); ok && v != nil {
+			if st, ok := deref(v.Type()).Underlying().(*types.Struct); ok {
+				if _, isPtr := v.Type().Underlying().(*types.Pointer); isPtr {
+					if refs := v.Referrers(); refs != nil {
+						for _, r := range *refs {
+							if fa, ok := r.(*ssa.FieldAddr); ok {
+								if fr := fa.Referrers(); fr != nil {
+									for _, u := range *fr {
+										if s, ok := u.(*ssa.Store); ok && s.Addr == fa {
+											out[st.Field(fa.Field).Name()] = c.E(s.Val)
+										}
+									}
+								}
+							}
+						}
+					}
+				}
+			}
+		}
 		if x.Op == "complit" {
 			for _, fi := range x.Args {
 				out[fi.Name] = fi.Args[0]
